@@ -242,9 +242,10 @@ def r162(ctx, rep):
         to = ctx.project.need_fn(to_fq)
         st = skeleton(tee)
         sw = skeleton(to)
-        if len(st) < 3 or len(sw) < 3:
+        if len(st) < 3 and len(sw) < 3:
             raise AnalysisError('anchor vanished: sink effects of %s / %s not recognised (%d / %d effects)'
                                 % (tee_fq, to_fq, len(st), len(sw)))
+        # (when only one side is recognisable the siblings have diverged: reported as a difference below)
         kt = [_norm_key(e, {}) for e in _drop_redundant_flush(st)]
         kw = [_norm_key(e, bind) for e in _drop_redundant_flush(sw)]
         pair = '%s == %s' % (tee.qualname, to.qualname)
